@@ -248,11 +248,37 @@ def eval_types(cases):
         r = res[c["id"]]
         if r and r[0] == "runner-error":
             raise vlib.BuildError("runner: %s (case %s)" % (r, case))
-        dom, strings, s_or, proj, allowed = r
+        dom, strings, s_or, proj, allowed, schema_texts = r
         if dom != "true":
             raise vlib.BuildError("generator produced a case outside the domain: %s" % case)
-        outs.append(judge(case, o, strings, s_or, proj, allowed, nontrivial=c["ts"][0] not in ("prim", "custom")))
+        out = judge(case, o, strings, s_or, proj, allowed, nontrivial=c["ts"][0] not in ("prim", "custom"))
+        bad = schema_text_mismatches(o.get("zod_mod") or "", schema_texts)
+        SCHEMA_TEXT_STATS["constants"] += len(schema_texts)
+        SCHEMA_TEXT_STATS["mismatches"] += len(bad)
+        if bad:
+            out.corr = False
+            out.detail["schema_text"] = bad
+            out.detail.setdefault("impl", {k: o.get(k) for k in ("strings", "plain_mod", "zod_mod") if k in o})
+        outs.append(out)
     return outs
+
+
+SCHEMA_TEXT_STATS = {"constants": 0, "mismatches": 0}
+
+
+def schema_text_mismatches(zod_mod, schema_texts):
+    """Text level of the schema constants (round 7): for every struct and every command with value
+    parameters the model prints the initialiser  z.object({ ... })  (Model/C10ZodText.v: struct_schema_text,
+    param_schema_text; in-process cases carry no validator attributes); it must occur verbatim in the
+    implementation's types.ts after  export const <Name> = , followed by the semicolon.
+    Coq theorems C10_struct_schema_text_denotes / C10_param_schema_text_denotes speak about exactly this text."""
+    bad = []
+    for name, text in schema_texts:
+        want = "export const %s = %s;" % (name, text)
+        if want not in zod_mod:
+            i = zod_mod.find("export const %s = " % name)
+            bad.append({"const": name, "model": text, "impl": zod_mod[i:i + len(want) + 40] if i >= 0 else None})
+    return bad
 
 
 def judge(case, o, strings, s_or, proj, allowed, nontrivial=True):
@@ -927,6 +953,7 @@ def run(rep):
         for c in tc:
             d = type_depth(c["ts"])
             depth[d] = depth.get(d, 0) + 1
+        rep.extra["schema_text_level"] = dict(SCHEMA_TEXT_STATS)      # schema constants whose initialiser text was compared with the model
         rep.extra["distribution"] = {
             "type_cases": len(tc), "type_depth_histogram": depth,
             "types_outside_every_class": sum(1 for o in outs if o.ok),
